@@ -112,6 +112,39 @@ theorem owners_exact (g : BuildGraph) (inputs : Nat → List Bytes) (files : Lis
   · rintro ⟨i, hi, hl⟩; exact ⟨i, mem_ownersOf.mp hi, hl⟩
   · rintro ⟨i, hi, hl⟩; exact ⟨i, mem_ownersOf.mpr hi, hl⟩
 
+/-- `grog changes` (graph part): prints, sorted and each once, exactly the labels of the owners of the
+    changed files and — with `--dependents=transitive` — of the targets among their transitive dependants,
+    that pass the filters. -/
+theorem changes_exact (g : BuildGraph) (s : Selector) (h : Host) (inputs : Nat → List Bytes) (files : List Bytes)
+    (tr : Bool) :
+    (changesCmd g s h inputs files tr).Pairwise (fun a b => bytesLt a b = true) ∧
+    ∀ x, x ∈ changesCmd g s h inputs files tr ↔
+      ∃ i, (Owns g inputs files i ∨
+             (tr = true ∧ g.isTargetAt i = true ∧ ∃ o, Owns g inputs files o ∧ IsDep g.edges true o i)) ∧
+           g.matchAt s h i = true ∧ LabelOf g i x := by
+  refine ⟨(printSorted_spec g _).1, fun x => ?_⟩
+  rw [changesCmd, (printSorted_spec g _).2 x]
+  cases tr with
+  | false =>
+    simp only [Bool.false_eq_true, ↓reduceIte, List.mem_filter, mem_dedupNodes, mem_ownersOf, false_and, or_false, LabelOf]
+    constructor
+    · rintro ⟨i, ⟨hi, hm⟩, hl⟩; exact ⟨i, hi, hm, hl⟩
+    · rintro ⟨i, hi, hm, hl⟩; exact ⟨i, ⟨hi, hm⟩, hl⟩
+  | true =>
+    simp only [↓reduceIte, List.mem_filter, mem_dedupNodes, List.mem_flatMap, List.mem_cons, mem_ownersOf,
+      mem_descendantsV, true_and, LabelOf, IsDep]
+    constructor
+    · rintro ⟨i, ⟨⟨o, ho, hio⟩, hm⟩, hl⟩
+      refine ⟨i, ?_, hm, hl⟩
+      rcases hio with rfl | ⟨⟨hr, hne⟩, ht⟩
+      · exact Or.inl ho
+      · exact Or.inr ⟨ht, o, ho, hr, fun e => hne e.symm⟩
+    · rintro ⟨i, hi, hm, hl⟩
+      refine ⟨i, ⟨?_, hm⟩, hl⟩
+      rcases hi with ho | ⟨ht, o, ho, hr, hne⟩
+      · exact ⟨i, ho, Or.inl rfl⟩
+      · exact ⟨o, ho, Or.inr ⟨⟨hr, fun e => hne e.symm⟩, ht⟩⟩
+
 /-- distinct nodes print distinct labels (the node map is keyed by label) -/
 def PrintedDistinct (g : BuildGraph) : Prop :=
   ∀ (i j : Nat) (ni nj : Node), g.nodes[i]? = some ni → g.nodes[j]? = some nj →
@@ -192,6 +225,18 @@ theorem inverse_printed (g : BuildGraph) (plat : Bytes) (hd : PrintedDistinct g)
     subst this
     exact ⟨a, hdep, matchAt_trivial g plat a na ha, na, ha, rfl⟩
 
+/-- the hypotheses of `inverse_printed` / `list_exact` hold for a concrete graph (a ← b) -/
+example : PrintedDistinct ⟨[⟨⟨[], [97]⟩, true, [], [], false⟩, ⟨⟨[], [98]⟩, true, [], [], false⟩], [(0, 1)]⟩ := by
+  intro i j ni nj hi hj h
+  match i, j with
+  | 0, 0 => rfl
+  | 1, 1 => rfl
+  | 0, 1 => simp at hi hj; subst hi; subst hj; revert h; decide
+  | 1, 0 => simp at hi hj; subst hi; subst hj; revert h; decide
+  | i + 2, _ => simp at hi
+  | 0, j + 2 => simp at hj
+  | 1, j + 2 => simp at hj
+
 /-- `edit_predicts`, full statement: after editing file `f`, the targets a build re-executes are a subset
     of `owners f` and their transitive rdeps. `reexec` is an observation of the real build (or of the build
     model of C02); it is not defined in this group. -/
@@ -211,6 +256,15 @@ theorem edit_predicts_partial (g : BuildGraph) (inputs : Nat → List Bytes) (f 
   rcases hC02 t ht with h | ⟨c, hc, hd⟩
   · exact Or.inl (hchanged t h)
   · exact Or.inr ⟨c, hchanged c hc, hd⟩
+
+/-- the hypotheses of `edit_predicts_partial` are satisfiable: a ← b, file `f` owned by `a`, `a` changed,
+    `a` and `b` re-executed -/
+example :
+    let g : BuildGraph := ⟨[⟨⟨[], [97]⟩, true, [], [], false⟩, ⟨⟨[], [98]⟩, true, [], [], false⟩], [(0, 1)]⟩
+    let inputs : Nat → List Bytes := fun i => if i = 0 then [[102]] else []
+    (∀ c ∈ [0], c ∈ ownersOf g inputs [[102]]) ∧
+    (∀ t ∈ [0, 1], t ∈ [0] ∨ ∃ c ∈ [0], t ∈ (descendantsV g.edges c).nodes) := by
+  refine ⟨by decide, by decide⟩
 
 /-- what a sequence of `AddEdge` calls builds: the given edges in order, all between existing nodes,
     none a self-loop (so the graphs the traversals run on satisfy `C19.WF`) -/
